@@ -437,7 +437,7 @@ def make_cases(ctx, listing, thorough):
         t = parse_kind(kind)
         for bo in ("le", "be"):
             for prefix in range(16):
-                for _ in range(nval if thorough else 2):
+                for _ in range(30 if thorough else 2):
                     cases.append({"op": "EC", "kind": kind, "desc": listing["E1"], "bo": bo, "prefix": prefix,
                                   "toks": gen_container(r, t, cs1)})
     # several cases with one signature (the first answers); short signatures at and beyond the nesting limits
